@@ -299,6 +299,26 @@ func c09GenEvent(t *rapid.T, version string, r c07Room, b c07Built, label string
 	return vfBytes(jplain(raJSON(version, e)))
 }
 
+// c09Resend rewrites an event so that it is sent by `sender`; member events become messages unless
+// keepMember (then a self-membership event of that sender).
+func c09Resend(version string, raw vfBytes, sender string, keepMember bool) vfBytes {
+	t, err := evTree(raw)
+	if err != nil {
+		return raw
+	}
+	t = t.with("sender", jstr(sender))
+	if evStr(t, "type") == "m.room.member" {
+		if keepMember {
+			t = t.with("state_key", jstr(sender))
+		} else {
+			t = t.with("type", jstr("m.room.message")).without("state_key")
+		}
+	}
+	t = t.without("hashes")
+	t = t.with("hashes", jobj("sha256", jstr(rcontentHash(t))))
+	return vfBytes(jplain(t))
+}
+
 func c09Gen(t *rapid.T) c09Case {
 	version := evGenVersion(t)
 	c := c09Case{Version: version, Seed: rapid.Uint64().Draw(t, "seed"), Build: rapid.IntRange(0, 2).Draw(t, "build") == 0}
@@ -334,6 +354,21 @@ func c09Gen(t *rapid.T) c09Case {
 		}
 		variants = append(variants, v)
 	}
+	if len(variants) > 1 && rapid.Bool().Draw(t, "memberFlip") {
+		// a variant that differs ONLY in one user's membership
+		v := base
+		v.Members = map[string]string{}
+		for k, m := range base.Members {
+			v.Members[k] = m
+		}
+		u := rapid.SampledFrom(c07Users).Draw(t, "flipUser")
+		if base.Members[u] == "join" {
+			v.Members[u] = rapid.SampledFrom([]string{"ban", "leave"}).Draw(t, "flipTo")
+		} else {
+			v.Members[u] = "join"
+		}
+		variants = append(variants, v)
+	}
 	var built []c07Built
 	for i, v := range variants {
 		b := c07Build(v)
@@ -349,12 +384,25 @@ func c09Gen(t *rapid.T) c09Case {
 		c.Rooms = append(c.Rooms, js)
 	}
 	ns := rapid.IntRange(0, 6).Draw(t, "nsteps")
+	// focused mode: one sender's events only, so that anything a checker remembers about "the last
+	// sender" (membership, level) is exercised across state changes
+	focus := ""
+	if len(variants) > 1 && rapid.IntRange(0, 2).Draw(t, "focused") == 0 {
+		focus = rapid.SampledFrom(c07Users).Draw(t, "focusSender")
+	}
 	for i := 0; i < ns; i++ {
 		ri := rapid.IntRange(0, len(variants)-1).Draw(t, "stepRoom")
-		c.Steps = append(c.Steps, c09Step{Room: ri, Event: c09GenEvent(t, version, variants[ri], built[ri], fmt.Sprint("s", i))})
+		ev := c09GenEvent(t, version, variants[ri], built[ri], fmt.Sprint("s", i))
+		if focus != "" {
+			ev = c09Resend(version, ev, focus, rapid.IntRange(0, 3).Draw(t, "focusKeepMember") == 0)
+		}
+		c.Steps = append(c.Steps, c09Step{Room: ri, Event: ev})
 	}
 	fr := rapid.IntRange(0, len(variants)-1).Draw(t, "finalRoom")
 	c.Final = c09Step{Room: fr, Event: c09GenEvent(t, version, variants[fr], built[fr], "final")}
+	if focus != "" {
+		c.Final.Event = c09Resend(version, c.Final.Event, focus, false)
+	}
 	np := rapid.IntRange(0, 3).Draw(t, "npad")
 	for i := 0; i < np; i++ {
 		var e raEv
